@@ -3,7 +3,7 @@ consistency) and AFF (affine identities), on top of the E2 interpreter."""
 from . import domain as D
 from .absint import Interp, Budget
 from .entries import (default_args, install_offset_contract, install_partitions, NPD, OFF_MAX, TIME, DATETIME,
-                      DATE, OFFSET)
+                      DATE, OFFSET, STRUCT_INV)
 from .models import cause_of, origin_of
 
 OOR = 'errors::out_of_range::OutOfRange'
@@ -88,6 +88,9 @@ class Numeric:
             self._inv(I, st, fn, bb, si, span, path, ops[0], -OFF_MAX, OFF_MAX, '|Offset::Fixed| < 86_400')
         elif path == OOR:
             self._oor(I, st, fn, bb, si, span, ops)
+        elif path in STRUCT_INV:
+            for idx, (lo, hi) in STRUCT_INV[path].items():
+                self._inv(I, st, fn, bb, si, span, path, ops[idx], lo, hi, f'{path} field {idx} in [{lo}, {hi}]')
 
     def _panic_hook(self, I, st, site, cause):
         self.panics.setdefault(I.cur_entry, []).append((self.cur_cfg, st.clone(), cause))
@@ -323,6 +326,8 @@ def _worker(args):
     for k, o in N.I.obl.items():
         obl[k] = (o.kind, o.fn, o.sub, o.ordinal, o.span, o.ok, o.fail, o.samples, sorted(o.causes))
     res = [(len(outs),) for (_a, _s, outs) in N.results.get(fn, [])]
+    for post in opts.get('post', ()):
+        post(N, fn, ctx)
     return fn, obl, dict(N.I.unmodelled), dict(N.I.notes), [f.to_json() for f in ctx.findings], sorted(N.I.models_used), N.I.steps, res
 
 
@@ -335,8 +340,14 @@ def run_entries_parallel(ctx, N, entries, opts=None, procs=8):
     with mp.get_context('fork').Pool(min(procs, len(jobs))) as pool:
         results = pool.map(_worker, jobs, chunksize=1)
     stats = {}
+    import os
     for fn, obl, unm, notes, findings, used, steps, res in results:
         ctx.cov['entries'].append(fn)
+        if os.environ.get('VF_DEBUG'):
+            print(f'== {fn}: steps {steps}, results {res}, unmodelled {unm}')
+            for k, o in obl.items():
+                if o[6]:
+                    print(f'   FAIL {k} {o[4]} ok {o[5]} fail {o[6]} {o[8]} {o[7][:1]}')
         stats[fn] = {'steps': steps, 'result_disjuncts': sum(r[0] for r in res)}
         for k, (kind, ofn, sub, ordinal, span, okc, fail, samples, causes) in obl.items():
             o = N.I.obl.get(k)
